@@ -41,6 +41,11 @@ const VALUES: &[Val] = &[
   Val { json: "9223372036854775808", cbor: &[0x1b, 0x80, 0x00, 0x00, 0x00, 0x00, 0x00, 0x00, 0x00] },
   Val { json: "-256", cbor: &[0x38, 0xff] },
   Val { json: "-257", cbor: &[0x39, 0x01, 0x00] },
+  // longer arrays (recursive group rules need more than one element)
+  Val { json: "[1,2,3]", cbor: &[0x83, 0x01, 0x02, 0x03] },
+  Val { json: "[\"a\",1]", cbor: &[0x82, 0x61, 0x61, 0x01] },
+  Val { json: "[\"a\",1,\"b\",2]", cbor: &[0x84, 0x61, 0x61, 0x01, 0x61, 0x62, 0x02] },
+  Val { json: "[1,[2,[3]]]", cbor: &[0x82, 0x01, 0x82, 0x02, 0x81, 0x03] },
   // small maps for group choices that share members
   Val { json: "{\"code\":1}", cbor: &[0xa1, 0x64, b'c', b'o', b'd', b'e', 0x01] },
   Val { json: "{\"id\":1}", cbor: &[0xa1, 0x62, b'i', b'd', 0x01] },
@@ -180,6 +185,61 @@ pub fn find(_args: &[String]) -> i32 {
       }
     }
   }
+  // --- occurrences on MAP members: ? x = 0*1 x, * x = 0* x, + x = 1* x (both validators)
+  let map_docs: &[Val] = &[
+    Val { json: "{}", cbor: &[0xa0] },
+    Val { json: "{\"k\":1}", cbor: &[0xa1, 0x61, b'k', 0x01] },
+    Val { json: "{\"k\":\"x\"}", cbor: &[0xa1, 0x61, b'k', 0x61, b'x'] },
+    Val { json: "{\"j\":1,\"k\":2}", cbor: &[0xa2, 0x61, b'j', 0x01, 0x61, b'k', 0x02] },
+    Val { json: "{\"a\":1,\"b\":2,\"c\":3}", cbor: &[0xa3, 0x61, b'a', 0x01, 0x61, b'b', 0x02, 0x61, b'c', 0x03] },
+    Val { json: "{\"j\":\"x\",\"k\":2}", cbor: &[0xa2, 0x61, b'j', 0x61, b'x', 0x61, b'k', 0x02] },
+  ];
+  for tpl in ["{ OCC tstr => int }", "{ OCC \"k\" => int }", "{ OCC k: int }", "{ OCC tstr => int, * tstr => tstr }", "{ j: int, OCC k: int }", "{ OCC (k: int) }"] {
+    for (o1, o2) in [("?", "0*1"), ("*", "0*"), ("+", "1*"), ("*2", "0*2")] {
+      let (s1, s2) = (format!("t = {}\n", tpl.replace("OCC", o1)), format!("t = {}\n", tpl.replace("OCC", o2)));
+      for v in map_docs {
+        tried += 1;
+        if let (Some(Ok(x)), Some(Ok(y))) = (jv(&s1, v), jv(&s2, v)) {
+          if x != y {
+            note(format!("occmap-json##{} | {} {}##{}", tpl, o1, o2, vname(v)), format!("{}={} {}={}", o1, x, o2, y), &mut failing, &mut first);
+          }
+        }
+        if let (Ok(x), Ok(y)) = (cv(&s1, v), cv(&s2, v)) {
+          if x != y {
+            note(format!("occmap-cbor##{} | {} {}##{}", tpl, o1, o2, vname(v)), format!("{}={} {}={}", o1, x, o2, y), &mut failing, &mut first);
+          }
+        }
+      }
+    }
+  }
+  // --- float ranges: inclusive and exclusive differ only at the upper bound
+  let fl = |x: f64| -> (String, Vec<u8>) {
+    let mut b = vec![0xfb];
+    b.extend_from_slice(&x.to_bits().to_be_bytes());
+    (format!("{:?}", x), b)
+  };
+  for (lo, hi) in [(0.25f64, 0.5f64), (-1.5, 1.5), (1.0, 3.0)] {
+    let (si, se) = (format!("t = {:?}..{:?}\n", lo, hi), format!("t = {:?}...{:?}\n", lo, hi));
+    let below = f64::from_bits(hi.to_bits() - if hi > 0.0 { 1 } else { 0 });
+    for x in [lo, (lo + hi) / 2.0, below, hi, hi + 0.25, lo - 0.25] {
+      let (js, cb) = fl(x);
+      let js: &'static str = Box::leak(js.into_boxed_str());
+      let cb: &'static [u8] = Box::leak(cb.into_boxed_slice());
+      let v = Val { json: js, cbor: cb };
+      tried += 1;
+      let at_bound = x == hi;
+      if let (Some(Ok(i)), Some(Ok(e))) = (jv(&si, &v), jv(&se, &v)) {
+        if (at_bound && i && e) || (!at_bound && i != e) {
+          note(format!("frange-json##{:?}..{:?}##{}", lo, hi, js), format!("inclusive={} exclusive={}", i, e), &mut failing, &mut first);
+        }
+      }
+      if let (Ok(i), Ok(e)) = (cv(&si, &v), cv(&se, &v)) {
+        if (at_bound && i && e) || (!at_bound && i != e) {
+          note(format!("frange-cbor##{:?}..{:?}##{}", lo, hi, js), format!("inclusive={} exclusive={}", i, e), &mut failing, &mut first);
+        }
+      }
+    }
+  }
   println!(
     "{{\"found\":{},\"tried\":{},\"failing\":{},\"first\":{}}}",
     !failing.is_empty(),
@@ -236,6 +296,9 @@ pub fn find_mirror(_args: &[String]) -> i32 {
     "{ (id: int, name: tstr) // (id: int, code: int) }", "{ id: int, name: tstr // id: int, code: int }", "{ (id: int, code: int) // (id: tstr, code: int) }",
     "{ ? id: int, code: int }", "{ id: int, ? code: int, ? name: tstr }", "{ id: int, * tstr => any }", "{ a // code: int }\na = (id: int, name: tstr)",
     "{ id: int } / { code: int }", "{ + tstr => int }",
+    // group rules referenced from arrays, recursively and through generics / unwrap
+    "[list]\nlist = (int, ? list)", "[* pair]\npair = (tstr, int)", "tree\ntree = [int, ? tree]", "[int, * rest]\nrest = (int)", "[~inner, int]\ninner = [tstr]",
+    "g<int>\ng<x> = [* x]", "g<tstr, int>\ng<x, y> = [* (x, y)]", "[2*3 int]", "[* int, tstr]", "[int // tstr, int]",
   ] {
     schemas.push(format!("t = {}\n", x));
   }
